@@ -22,8 +22,11 @@ def main():
         cmd = [sys.executable, os.path.join(ROOT, 'tools', 'try_seeded.py'), meta['property'], '--src', d,
                '--name', name, '--checks', checks]
         r = subprocess.run(cmd, capture_output=True, text=True)
-        if 'PATCH DOES NOT APPLY' in r.stdout and meta.get('applied_to'):
-            r = subprocess.run(cmd + ['--rev', meta['applied_to']], capture_output=True, text=True)
+        if 'PATCH DOES NOT APPLY' in r.stdout:
+            # the code it changes has been rewritten by a later fix: running it against the old
+            # revision would report the later fixes' defects, not this change — say so instead
+            print(name, 'OBSOLETE: the patch does not apply to the current main (see seeded/NOTES.json)', flush=True)
+            continue
         new = json.load(open(os.path.join(d, 'meta.json')))
         caught = new.get('caught_by') or []
         print(name, 'caught by', caught if r.returncode == 0 else 'ERROR: ' + r.stdout[-300:], flush=True)
